@@ -12,7 +12,8 @@ LEVEL = "exploration"
 N = {"quick": 80000, "thorough": 1600000}
 RULE = ("seeded instance x filter x op list with query bursts (1-8 queries, random order, repeats) between all "
         "dispatches, invalid requests and resets; every single answer is compared with the reference model's "
-        "from-scratch recomputation for the current state (multiset + no duplicates), plus partition laws; "
+        "from-scratch recomputation for the current state (multiset + no duplicates), plus partition laws and the is_ongoing predicate; "
+        "filters include user-defined ones (one of which may return an empty list); "
         "non-trivial: >= 2 dispatches and >= 4 queries; distinct = distinct (config, op list) hashes")
 REAL = ["Dispatcher (all cached queries)", "UnscheduledOperationsObserver"]
 STUB = []
